@@ -140,7 +140,7 @@ pub fn small_cfg(rng: &mut Rng) -> TreeCfg {
 ///   three-level tree.
 pub fn generate(ctx: &mut Ctx, allow_filters: bool) -> Vec<Value> {
     let mut cases = Vec::new();
-    let n = ctx.budget(40, 900);
+    let n = ctx.budget(28, 900);
     for i in 0..n {
         let mut rng = ctx.rng.fork();
         let cfg = small_cfg(&mut rng);
@@ -265,7 +265,7 @@ fn sweep(ctx: &mut Ctx) -> Vec<Value> {
             for kind in OBJ_FAULTS {
                 // Quick tier: every fault kind once per object class, rotating.
                 k += 1;
-                if !thorough && (k + ctx.seed) % 3 != 0 { continue }
+                if !thorough && (k + ctx.seed) % 4 != 0 { continue }
                 let mut tree = base.clone();
                 let Some(f) = obj_fault(&mut tree.world, ca, 0, idx, kind, T0) else { continue };
                 let extra = json!({"base": to_json(&Scenario {
@@ -292,6 +292,12 @@ fn sweep(ctx: &mut Ctx) -> Vec<Value> {
         let key_of = move |name: &str| world.ca(name).map(|c| c.key).unwrap_or(0);
         let Some(f) = ta_fault(&mut tree.tas, &key_of, 0, kind, T0) else { continue };
         cases.push(case_json("sweep-ta", &tree, &opts, vec![run_spec(T0, tree.serve(0), Order::Sorted)], &[f], json!(null)));
+    }
+    {
+        let mut tree = base.clone();
+        if let Some(f) = tal_key_fault(&mut tree.world, 0) {
+            cases.push(case_json("sweep-ta", &tree, &opts, vec![run_spec(T0, tree.serve(0), Order::Sorted)], &[f], json!(null)));
+        }
     }
     cases
 }
